@@ -174,6 +174,19 @@ theorem callbacks_see_current_value (m : Entries) (k d : Nat) (v : Val) (f : RFn
   · intro o h; simp [mapSection, h]
   · intro h; simp [mapSection, h]
 
+/-- … and it stays that value while the callback runs: whatever the callback of `LoadWithFunc` reads under its key itself is
+    what it was called with (`Spec.cbCurrent`, the harness operation `lwfr`): the section leaves the map as it found it and the
+    argument is the entry of the key in it. -/
+theorem callback_reread_is_argument (m m' : Entries) (k d : Nat) (r : Res) (a : Option Val)
+    (h : mapSection (.loadWithFunc k d) m = some (m', r)) (ha : cbArg r = some a) :
+    cbCurrent a (mget k m') = true := by
+  have e := (callbacks_see_current_value m k d ⟨0, 0⟩ .del).1
+  rw [e] at h
+  cases h
+  simp only [cbArg, Option.some.injEq] at ha
+  subst ha
+  simp [cbCurrent]
+
 /-! ### the expiry sweep -/
 
 /-- the time a running sweep judges expiry against -/
@@ -524,6 +537,7 @@ open CoapVerif.Props.C14
 #print axioms loadOrStore_one_winner
 #print axioms cacheLoadOrStore_one_winner
 #print axioms callbacks_see_current_value
+#print axioms callback_reread_is_argument
 #print axioms sweep_only_expired
 #print axioms sweepTime_is_argument
 #print axioms range_weak_spec
